@@ -39,4 +39,6 @@ package ante
 //@ func checkBeaconMaxSlots(ctx, tx, bk) (err)
 //@   props C06 C08
 //@   requires beaParamsSet(bea_store)
+//@   nopanic
 //@   pure
+//@   loop 0: invariant 0 - 1 <= rangeindex && rangeindex < len(msgs)
